@@ -14,7 +14,7 @@ import (
 // running or runnable and it consumed next to no CPU time, i.e. every goroutine that matters is blocked for good
 // (a deadlock, a lost wake-up, a read that will never be answered). It is not a wall-clock oracle: a starved or
 // stopped process and a loaded machine only make the wait longer, because a thread that wants a processor is
-// runnable however long it has to queue for one, and an observation that itself arrives late is discarded.
+// runnable however long it has to queue for one, and an observation that arrives late counts once, never more.
 // A computation that spins forever is not a stall; callers bound that with their own (reported) deadline.
 func waitDone(done <-chan struct{}, quiet int) bool {
 	select {
@@ -36,7 +36,6 @@ func waitDone(done <-chan struct{}, quiet int) bool {
 		self := syscall.Gettid()
 		n := 0
 		prevCPU := stallCPU()
-		prev := time.Now()
 		for {
 			select {
 			case <-done:
@@ -44,16 +43,15 @@ func waitDone(done <-chan struct{}, quiet int) bool {
 				return
 			case <-time.After(time.Second):
 			}
-			now := time.Now()
-			late := now.Sub(prev) > 1500*time.Millisecond
-			prev = now
 			cpu := stallCPU()
 			busy := cpu-prevCPU > 50*time.Millisecond
 			prevCPU = cpu
-			if late || busy || runnableThreads(self) > 0 {
+			if busy || runnableThreads(self) > 0 {
 				n = 0
 				continue
 			}
+			// An observation that arrives late (a loaded machine delays the observer too) still counts as ONE
+			// observation: the process burnt no CPU over the whole, longer, interval and wants none now.
 			n++
 			if n >= quiet {
 				select {
